@@ -2091,9 +2091,39 @@ func (c *Compiler) makeIdentityRef(
 	c.validateRestrictions(node, base, SchemaIdentity)
 
 	idents := c.getIdentities(cfgNode, base, node, parentStatus)
+	if hasDef {
+		def = c.identityDefault(cfgNode, node, def)
+	}
 	def, hasDef = c.getDefault(base, def, hasDef)
 
 	return schema.NewIdentityref(name, idents, def, hasDef)
+}
+
+// identityDefault spells the default of an identityref, which is written
+// next to the type statement node (in a leaf or a typedef), the way the
+// values of the type are spelt for the leaf cfgNode: the bare name for an
+// identity of the leaf's own module, else <module-name>:<name>.  A prefix is
+// one of the file the default is written in; a default without one names an
+// identity of that file's module.
+func (c *Compiler) identityDefault(cfgNode, node parse.Node, def string) string {
+	mod := c.owningModule(node.Root())
+	name := def
+	if i := strings.Index(def, ":"); i >= 0 {
+		m, err := node.GetModuleByPrefix(def[:i], c.modules, c.skipUnknown)
+		if err != nil || m == nil {
+			// Not a prefix of this file: left as written
+			return def
+		}
+		mod, name = c.owningModule(m), def[i+1:]
+	}
+	leafMod := cfgNode.GetNodeModulename(cfgNode.Root())
+	if ur := cfgNode.UsesRoot(); ur != nil {
+		leafMod = c.owningModule(ur).Name()
+	}
+	if mod.Name() == leafMod {
+		return name
+	}
+	return mod.Name() + ":" + name
 }
 
 func (c *Compiler) getRequire(base schema.InstanceId, node parse.Node) bool {
